@@ -123,6 +123,12 @@ class Replay:
         check itself runs as root, so that permission bits mean what they mean for a buildpack (root bypasses them)"""
         if not requests:
             return []
+        if len(requests) > 400:
+            # batches: the timeout is per batch, and one batch's failure names a bounded set of requests
+            out = []
+            for i in range(0, len(requests), 400):
+                out += self.run(requests[i:i + 400], timeout=timeout, unprivileged=unprivileged)
+            return out
         self.build()
         inp = "\n".join(json.dumps(r) for r in requests) + "\n"
         pre = None
